@@ -1414,6 +1414,12 @@ def check_dump(ctx):
                                     and t[1][0][2] == seq and not t[1][0][3])]
         ok = ok and any(tq.is_call(x[1][0][4]) and x[1][0][4][2] == ('elem', seq, 0) and 'to_dict' in str(x[1][0][4][1]) for x in dumps)
     ctx.check(ok, 'W5', 'Message.to_dict dumps every clear and every encrypted payload', key=('W5', 'both-lists'), site=ctx.site(mt, mt.node))
+    # ... and the dump of a message the parser accepted is total: whatever the fields hold (identification data of any length, text
+    # that is not UTF-8, unknown enumeration values), no exception leaves Message.to_dict - a dump that raises shows nothing
+    esc_d = ctx.escape('engine', kills=common.engine_kills(ctx))
+    out_d = esc_d.escapes(mt)
+    ctx.check(not out_d, 'W5', 'no exception escapes Message.to_dict (every accepted message can be dumped)', key=('W5', 'dump-total'),
+              site=ctx.site(mt, mt.node), detail={'escaping': {k: [str(o)[:160] for o in list(v)[:3]] for k, v in sorted(out_d.items())}})
     pt = ctx.func('message.Payload.to_dict')
     ctx.check(tq.contains(ctx.sval(pt).ret(), ('attr', ('attr', me, 'type'), 'name')), 'W5', 'every payload dump names its type',
               key=('W5', 'payload-type'), site=ctx.site(pt, pt.node))
